@@ -6,7 +6,7 @@ From Coq Require Import List NArith ZArith Bool.
 From GoPdf.Base Require Import Bytes.
 From GoPdf.C02 Require Import Obj Writer.
 From GoPdf.Base Require Import Res.
-From GoPdf.C02 Require Import Dec Syntax Stored Expect Reader.
+From GoPdf.C02 Require Import Dec Syntax Stored Expect Reader ChainProofs.
 From GoPdf.C03 Require Import PSyntax Validate ValidateProofs ModelWriter SyntaxRT.
 Import ListNotations.
 Open Scope N_scope.
@@ -232,6 +232,18 @@ Theorem sound_filter_parms :
     end.
 Proof. exact filters_doc_ok_spec. Qed.
 Print Assumptions sound_filter_parms.
+
+(* every stream dictionary the model writer renders - the caller's dictionary without /Filter, or
+   declaring a chain of any shape under at least one filter of OpenStream - passes this check, as the
+   validator sees it (parsed: normalised) *)
+Theorem model_stream_dicts_aligned :
+  forall n g d fs,
+    (dict_get k_Filter d = None -> dict_get k_DecodeParms d = None ->
+       filters_ok (norm_parms (stream_dict n g d fs)) = true) /\
+    (forall f fs' o, fs = f :: fs' -> dict_get k_Filter d = Some o ->
+       filters_ok (norm_parms (stream_dict n g d fs)) = true).
+Proof. exact model_stream_dict_filters_ok. Qed.
+Print Assumptions model_stream_dicts_aligned.
 
 (* ================= strict is contained in lenient ================= *)
 
